@@ -12,7 +12,20 @@ fi
 rm -f /tmp/nomt-verif-build.$$.log
 cd /verif
 case "$2" in
-  quick|thorough) exec /verif/target/release/vcheck run "$1" "$2" ;;
+  thorough)
+    case "$1" in
+      C07|C08|C18)
+        # coverage-guided stage first (libFuzzer, same oracles); its summary goes into the evidence file
+        sum=/dev/shm/nomt-verif-fuzzsum.$$.json
+        /verif/tools/fuzz_stage.sh "$1" ${VERIF_FUZZ_RUNS:-150000} ${VERIF_FUZZ_JOBS:-16} $sum; frc=$?
+        VERIF_EXTRA_COVERAGE_FILE=$sum /verif/target/release/vcheck run "$1" thorough; rc=$?
+        rm -f $sum
+        [ $frc -eq 1 ] && exit 1
+        [ $rc -ne 0 ] && exit $rc
+        exit $frc ;;
+    esac
+    exec /verif/target/release/vcheck run "$1" "$2" ;;
+  quick) exec /verif/target/release/vcheck run "$1" "$2" ;;
   replay) exec /verif/target/release/vcheck replay "$1" "$3" ;;
   *) echo "usage: run.sh <ID> <quick|thorough|replay> [file]" >&2; exit 2 ;;
 esac
